@@ -233,6 +233,8 @@ func withAuthorizerBurnMerged() eventMergeMiddleware {
 	})
 }
 
+// mergeAddBridgeMintEvents keeps every mint of the block: mints of one user may
+// carry different signer sets, each is counted toward its own signers.
 func mergeAddBridgeMintEvents() *eventsMergerImpl[BridgeMint] {
-	return newEventsMerger[BridgeMint](TagAddBridgeMint, withUniqueEventOverwrite())
+	return newEventsMerger[BridgeMint](TagAddBridgeMint)
 }
